@@ -52,7 +52,7 @@ def verify(d):
     return 0 if res['confirmed'] else 1
 
 
-def run(d, ids):
+def run(d, ids, tier='quick'):
     d = os.path.abspath(d)
     meta = json.load(open(os.path.join(d, 'meta.json')))
     if not ids:
@@ -65,9 +65,9 @@ def run(d, ids):
         assert rc == 0, out
         for pid in ids:
             t0 = time.time()
-            rc, out = sh([os.path.join(VERIF, 'check'), pid, 'quick'], cwd=VERIF)
+            rc, out = sh([os.path.join(VERIF, 'check'), pid, tier], cwd=VERIF, timeout=14400)
             viol = [l for l in out.split('\n') if l.startswith('VIOLATION')]
-            results[pid] = {'exit': rc, 'violation_lines': viol, 'tail': out[-500:], 'wall_s': round(time.time() - t0, 1)}
+            results[pid if tier == 'quick' else pid + ':' + tier] = {'exit': rc, 'violation_lines': viol, 'tail': out[-500:], 'wall_s': round(time.time() - t0, 1)}
             for v in viol:
                 # keep a copy of the replay file next to the seeded change
                 path = v.split('replay=')[1].split(' ')[0]
@@ -88,4 +88,8 @@ def run(d, ids):
 if __name__ == '__main__':
     if sys.argv[1] == 'verify':
         sys.exit(verify(sys.argv[2]))
-    sys.exit(run(sys.argv[2], sys.argv[3:]))
+    args = sys.argv[3:]
+    tier = 'quick'
+    if '--tier' in args:
+        tier = args[args.index('--tier') + 1]; args = [a for a in args if a not in ('--tier', tier)]
+    sys.exit(run(sys.argv[2], args, tier))
